@@ -62,7 +62,7 @@ def base_name(oname):
 
 
 # ------------------------------------------------------------------ one unit, in a worker process
-def run_unit(args):
+def run_unit(args, on_partial=None):
     prop, uname, seed, tier, known_ids, ncross = args
     t0 = time.time()
     res = {"unit": uname, "obligations": [], "covers": [], "unsupported": [], "crashes": [],
@@ -83,6 +83,47 @@ def run_unit(args):
                 d = {"error": "%s: %s" % (type(e).__name__, e)}
             d["function"] = "%s.%s" % (m, q)
             res["targets"].append(d)
+        # cross-check FIRST (cheap, concrete): random pre-states through the unmodified real function.  Its result is
+        # sent to the parent at once, so that it survives if the symbolic exploration below has to be killed
+        rng = random.Random(seed * 7919 + __import__("zlib").crc32(uname.encode()) % 1000)
+        for i in range(ncross):
+            cc = U.ConcUnitCtx(uname, prop, rng=rng)
+            cc.known_ids = known_ids
+            proxies.set_cx(cc)
+            try:
+                u.body(cc)
+            except core.PathEnd:
+                pass
+            except core.Unsupported as e:
+                res["cross"].setdefault("unsupported", []).append(str(e)[:100])
+            except BaseException as e:
+                res["cross"].setdefault("errors", []).append("%s: %s" % (type(e).__name__, str(e)[:200]))
+            finally:
+                _close_heap(cc)
+            res["cross"]["runs"] += 1
+            if not cc.assume_failed and cc.checked:
+                res["cross"]["effective"] += 1
+            if cc.failed and not cc.assume_failed:
+                res["cross"]["failed"].append({"clauses": cc.failed[:5], "values": _jsonable(cc.values)})
+        # the concrete runs may have closed / unset the thread's event loop; symbolic runs that create a real
+        # asyncio.Future need one, as before the cross-check moved to the front
+        try:
+            import asyncio as _aio
+            try:
+                _aio.get_event_loop_policy().get_event_loop()
+            except RuntimeError:
+                _aio.set_event_loop(_aio.new_event_loop())
+        except Exception:
+            pass
+        if on_partial is not None:
+            try:
+                part = dict(res)
+                part["partial"] = True
+                part["unsupported"] = [[0, "symbolic exploration did not finish (unit killed at its wall-clock limit): undecided"]]
+                part["exhausted"] = False
+                on_partial(part)
+            except Exception:
+                pass
         c = U.SymUnitCtx(uname, prop, seed)
         c.known_ids = known_ids
         if u.bounded:
@@ -136,27 +177,6 @@ def run_unit(args):
         res["n_obligations"] = len(c.obligations)
         res["n_discharged"] = sum(1 for o in c.obligations if o.status == "discharged")
         res["samples"] = [sample_obligation(o) for o in c.obligations[:2]]
-        # cross-check: random concrete pre-states through the unmodified real function
-        rng = random.Random(seed * 7919 + hash(uname) % 1000)
-        for i in range(ncross):
-            cc = U.ConcUnitCtx(uname, prop, rng=rng)
-            cc.known_ids = known_ids
-            proxies.set_cx(cc)
-            try:
-                u.body(cc)
-            except core.PathEnd:
-                pass
-            except core.Unsupported as e:
-                res["cross"].setdefault("unsupported", []).append(str(e)[:100])
-            except BaseException as e:
-                res["cross"].setdefault("errors", []).append("%s: %s" % (type(e).__name__, str(e)[:200]))
-            finally:
-                _close_heap(cc)
-            res["cross"]["runs"] += 1
-            if not cc.assume_failed and cc.checked:
-                res["cross"]["effective"] += 1
-            if cc.failed and not cc.assume_failed:
-                res["cross"]["failed"].append({"clauses": cc.failed[:5], "values": _jsonable(cc.values)})
     except BaseException as e:
         res["crashes"].append([0, "%s: %s" % (type(e).__name__, e), traceback.format_exc()[-2000:]])
     res["wall"] = round(time.time() - t0, 3)
@@ -276,7 +296,7 @@ def complete_by_unrolling(u, prop, o, known_ids, seed):
 
 def _unit_child(task, q):
     try:
-        q.put(run_unit(task))
+        q.put(run_unit(task, on_partial=q.put))
     except BaseException as e:
         q.put({"unit": task[1], "obligations": [], "covers": [], "unsupported": [], "paths": 0, "rewrite": [], "models": [],
                "crashes": [[0, "%s: %s" % (type(e).__name__, e), traceback.format_exc()[-1500:]]],
@@ -288,7 +308,7 @@ def run_units_watchdog(tasks, jobs, limit_s):
     own timeout): an overrunning unit is killed and reported undecided(time limit), never a violation."""
     ctx = mp.get_context("fork")
     pending = list(enumerate(tasks))
-    running, results = {}, {}
+    running, results, partials = {}, {}, {}
     while pending or running:
         while pending and len(running) < jobs:
             i, t = pending.pop(0)
@@ -303,6 +323,9 @@ def run_units_watchdog(tasks, jobs, limit_s):
                 got = q.get_nowait()
             except Exception:
                 pass
+            if got is not None and got.get("partial"):
+                partials[i] = got
+                got = None
             if got is not None:
                 results[i] = got
                 p.join(5)
@@ -311,6 +334,9 @@ def run_units_watchdog(tasks, jobs, limit_s):
                 try:
                     got = q.get(timeout=1)
                 except Exception:
+                    got = None
+                if got is not None and got.get("partial"):
+                    partials[i] = got
                     got = None
                 results[i] = got or {"unit": t[1], "obligations": [], "covers": [], "paths": 0, "rewrite": [], "models": [],
                                      "unsupported": [[0, "unit process died without a result"]], "crashes": [],
@@ -325,6 +351,10 @@ def run_units_watchdog(tasks, jobs, limit_s):
                               "unsupported": [[0, "unit exceeded its wall-clock limit of %d s (solver did not return): undecided" % limit_s]],
                               "crashes": [], "cross": {"runs": 0, "effective": 0, "failed": []}, "secs": {}, "exhausted": False,
                               "targets": [], "wall": limit_s, "timed_out": True}
+                if i in partials:
+                    # the concrete cross-check of the unit finished before the exploration was killed: keep it
+                    results[i]["cross"] = partials[i].get("cross", results[i]["cross"])
+                    results[i]["targets"] = partials[i].get("targets", [])
                 del running[i]
     return [results[i] for i in range(len(tasks))]
 
